@@ -8,10 +8,17 @@ from e2e.gen import STD as STD_METHODS
 
 
 def _registered_components(spec, m, kinds=("handlers", "mws", "fallbacks")):
+    """Components that are registered *and* take part in some pipeline: a middleware or an observer registered after
+    every route and fallback it could apply to is never analysed by the compiler, so a rule broken there breaks nothing."""
+    applied = set()
+    for k in ("handlers", "fallbacks"):
+        for xid in spec[k]:
+            if xid in m.reg:
+                applied |= set(m.chain(xid)) | set(m.observers(xid))
     out = []
     for k in kinds:
         for xid in spec[k]:
-            if xid in m.reg:
+            if xid in m.reg and (k not in ("mws", "obs") or xid in applied):
                 out.append((k, xid, spec[k][xid]))
     return out
 
@@ -301,7 +308,7 @@ def op_cin_not_clone(rng, spec, m):
 
 
 def op_observer_needs_fallible(rng, spec, m):
-    obs = [(oid, o) for oid, o in spec["obs"].items() if oid in m.reg]
+    obs = [(oid, o) for (_k, oid, o) in _registered_components(spec, m, ("obs",))]
     if not obs:
         return None
     oid, o = rng.choice(obs)
